@@ -25,6 +25,10 @@ for name in sorted(os.listdir(SEEDED)):
                 checks.append(c)
         r = subprocess.run([os.path.join(VERIF, "tools/seedeval.py"), d, *checks], capture_output=True, text=True)
         res = json.loads(r.stdout[r.stdout.index("{"):])
+        if "checks" not in res:
+            print(name, "NOT EVALUATED:", json.dumps(res)[:300], flush=True)
+            rows.append((name, meta))
+            continue
         meta["confirmed"]["demo_exit_without_change"] = res.get("demo_clean_exit")
         meta["confirmed"]["demo_exit_with_change"] = res.get("demo_patched_exit")
         meta["detected_by"] = {c: [l.strip() for l in v["lines"] if "clause=" in l][:3] for c, v in res["checks"].items() if v["exit"] == 1}
